@@ -1,20 +1,26 @@
-"""C16 runtime part: the malformed-input stream.
+"""C16 runtime part: the input stream.
 
-Inputs: the shipped example files and the string literals of /repo/src (unit-test inputs), mutated
-(token deletion / duplication / swap, numeral inflation to the limits of isize/usize and beyond,
-huge variable indices, operator soup, unbalanced parentheses, deep nesting, huge arities, empty
-file, comments only, NUL / non-UTF-8 bytes, CRLF, BOM, a token / keyword repeated 3..6 times), at
-most 4 KB; plus a fixed corpus: every keyword / operator / bracket of a small file of each type
-repeated, and - in-process - every token of valid texts of every node type repeated.
-Every input goes through EVERY command of the CLI (parse --as x4, translate --with x5, simplify
-3x3, analyze x2, verify in six role assignments + the example's own task) under a 10 s watchdog, and
-through `str::parse::<T>()` of all 43 node types in-process (harness op `parse_any`).
+Inputs (at most 4 KB): the shipped example files and the string literals of /repo/src (unit-test inputs), mutated
+(token deletion / duplication / swap, numeral inflation to the limits of isize/usize and beyond, huge variable
+indices, names that meet anthem's own generated names, operator soup, unbalanced parentheses, 20 nesting shapes
+from 20 levels to what fits in 4 KB, huge arities, empty file, comments only, NUL / non-UTF-8 bytes, CRLF, BOM, a
+token / keyword repeated 3..6 times); wide programs with a user guide that declares their predicates; a fixed corpus
+(every keyword / operator / bracket of a small file of each type repeated, every nesting shape at 4 KB, one wide
+program of every form) and - in-process - every token of valid texts of every node type repeated; printed random
+trees of the framework's generators (accepted texts).
+Every input goes through EVERY command of the CLI (parse --as x4 (+2), translate --with x5, simplify 3x3, analyze x2,
+verify in eight role assignments + the example's own task, 4 commands on stdin; a wide program also through verify
+external against itself x3 and its tau-star theory through simplify 3x3) under a 10 s watchdog, and through
+`str::parse::<T>()` of all 43 node types in-process (harness op `parse_any`).
 
-A crash = exit status 101, "panicked at" on stderr, death by signal, or a timeout.  Crashes inside
-the recorded classes (known_findings.jsonl: F3a, F11, F15; F3b and F14 are repaired) are counted; the class is
-recognised from the INPUT (e.g. a digit run beyond isize::MAX) together with the symptom, so that
-a different crash on the same input, or the same symptom on another kind of input, is still a
-VIOLATION whose replay is the input file and the command.
+A crash = exit status 101 / 134, "panicked at" on stderr, death by signal, or a timeout.  Crashes inside the recorded
+classes (known_findings.jsonl: F3a, F11 panics; F20 stack overflow abort; F15, F21, F22 slower than the watchdog; F3b,
+F14, F16, N1 are repaired) are counted; a class is recognised from the INPUT TEXT (c16lib.measures: operator nesting,
+bracket nesting, width; a digit run beyond isize::MAX; ..) together with the symptom and, for the slow classes, a
+control run, so that a different crash on the same input, or the same symptom on another kind of input, is still a
+VIOLATION whose replay is the input file and the command.  A class whose entry is no longer `known`, or whose recorded
+input no longer shows its panic / abort on the tree under test, is closed: nothing is booked in it.
+A command id that accepts no input of the run stops the check with INTERNAL-ERROR (exit status 2).
 """
 import os
 import re
